@@ -8,7 +8,8 @@ import sys
 import warnings
 
 REPO = os.environ.get("MOSAIK_REPO", "/repo")
-if REPO not in sys.path:
+if not sys.path or sys.path[0] != REPO:
+    # first, so that `mosaik` AND the repository's `tests` package (suite scenarios / simulators) come from this tree
     sys.path.insert(0, REPO)
 
 VERIF = os.path.dirname(os.path.dirname(os.path.abspath(__file__)))
